@@ -622,7 +622,20 @@ class World:
 
     @staticmethod
     def fmt_set(nums):
-        return ",".join(str(n) for n in nums)
+        """Runs of three or more consecutive numbers are written as ranges, as clients do."""
+        nums = list(nums)
+        out = []
+        i = 0
+        while i < len(nums):
+            j = i
+            while j + 1 < len(nums) and isinstance(nums[j], int) and nums[j + 1] == nums[j] + 1:
+                j += 1
+            if j - i >= 2:
+                out.append(f"{nums[i]}:{nums[j]}")
+            else:
+                out.extend(str(n) for n in nums[i : j + 1])
+            i = j + 1
+        return ",".join(out)
 
     async def ensure_uids_known(self, ss, positions=None):
         """A client only uses sequence numbers for messages it knows; learn
@@ -773,6 +786,10 @@ class World:
             have = {d.get("UID") for n, d in got if any(k != "FLAGS" for k in d)}
             if not want <= have:
                 self.viol(["C15", "C03"], "uid-fetch-missing-messages", f"{text}: wanted {sorted(want)} got {sorted(x for x in have if x)}")
+            extra = {x for x in have if x is not None} - {x for x in spec if isinstance(x, int)}
+            self.stats["uid_fetch_addressing_compares"] += 1
+            if extra:
+                self.viol(["C15", "C03"], "uid-fetch-returned-unaddressed-messages", f"{text}: answered for UIDs {sorted(extra)} that the set does not name")
         return r
 
     async def op_noop(self, ss, check=False):
